@@ -10,7 +10,9 @@ LEVEL_TEXT = ("Coq theorems over an abstract field with conjugation and an abstr
               "NFFT/2+1 (real) or NFFT (complex) bins, its bins sum to NFFT*sum|x w|^2/N (Parseval), 2-D input is the column-wise "
               "1-D result, the Periodogram class stores the function's value after any sequence of calls/reads/window changes, and "
               "the model of CORRELOGRAMPSD (rectangular window, lag N-1, biased, NFFT>=2N-1, both correlation back ends) equals the "
-              "complex periodogram bin by bin (Wiener-Khinchin; general Blackman-Tukey layout lemma for NFFT>=2*lag+1). "
+              "complex periodogram bin by bin (Wiener-Khinchin; general Blackman-Tukey layout lemma for NFFT>=2*lag+1; closed form of the "
+              "buffer for overlapping layouts; exact error branch). The __call__/psd-setter pipeline record is re-extracted from the source "
+              "by a fail-closed ast translator on every run and re-proved equal to the class model. "
               "Tie: the same Gallina terms are run at binary64 pairs with a harness-supplied twiddle table (every NFFT<=32/64, all 29 "
               "windows whose samples are taken from the implementation) and exactly at Gaussian rationals for NFFT in {1,2,4}; "
               "a search with an independent O(N*NFFT) DFT oracle evaluates every clause on the implementation.")
